@@ -175,6 +175,9 @@ func (r *runner) evaluate() {
 	}
 	if c.SharedTxn {
 		r.label("shared-txn")
+		if c.SharedCtx {
+			r.label("shared-txn-with-one-shared-context")
+		}
 		r.label([]string{"txn-commit-ok", "txn-commit-conflict", "txn-commit-error"}[r.commitStatus])
 		if r.commitStatus == stConflict {
 			r.label("conflict-observed")
